@@ -1504,8 +1504,8 @@ fn check_for_read_only_key(key: &str, client_id: ClientId) -> WorterbuchResult<(
         return Ok(());
     }
 
-    if path.len() <= 3 || path[1] != SYSTEM_TOPIC_CLIENTS || path[2] != client_id.to_string() {
-        // the only writable values are under $SYS/clients/[client_id]]/#
+    if path.len() != 4 || path[1] != SYSTEM_TOPIC_CLIENTS || path[2] != client_id.to_string() {
+        // the only writable values are the client's own entries $SYS/clients/[client_id]/[entry]
         return Err(WorterbuchError::ReadOnlyKey(key.to_owned()));
     }
 
